@@ -1078,3 +1078,95 @@ Qed.
 
 Definition build_matches (items : list (string * guard)) (s : state) (d : pydict) (code : nat) : bool :=
   Nat.eqb code (outcome_code (run_build items s d)).
+
+(* ------------------------------------------------------------------ order in which a build applies its keys *)
+(* the companions a guard's MESSAGES mention (`x` should be >= `a`, the same size as `a`) *)
+Definition doc_selfs (g : guard) : list string := flat_map (fun c => dom_selfs (c_dom c)) (g_clauses g).
+
+(* no documented companion of an item is assigned by that item or by a LATER one: when a key is validated its
+   companions already hold their final values (X_min is applied before X_max) *)
+Fixpoint build_order_ok (items : list (string * guard)) : bool :=
+  match items with
+  | [] => true
+  | (k, g) :: r =>
+      forallb (fun a => negb (existsb (String.eqb a) (k :: map fst r))) (doc_selfs g) && build_order_ok r
+  end.
+
+Lemma attrs_are_keys : forall r, forallb build_item_ok r = true ->
+  map (fun kg : string * guard => g_attr (snd kg)) r = map fst r.
+Proof.
+  induction r as [|[k g] r IH]; cbn; intro H; [reflexivity|].
+  apply andb_prop in H. destruct H as [A B]. unfold build_item_ok in A. cbn in A. apply String.eqb_eq in A.
+  rewrite <- A. f_equal. exact (IH B).
+Qed.
+
+Lemma in_dom_frame : forall s1 s2 v d, (forall a, In a (dom_selfs d) -> lookup s1 a = lookup s2 a) ->
+  in_dom s1 v d = in_dom s2 v d.
+Proof.
+  intros s1 s2 v d H. destruct d; cbn [in_dom]; try reflexivity; unfold self_num;
+    rewrite (H a) by (left; reflexivity); reflexivity.
+Qed.
+
+Lemma dom_state_ok_frame : forall s1 s2 d, (forall a, In a (dom_selfs d) -> lookup s1 a = lookup s2 a) ->
+  dom_state_ok s1 d = dom_state_ok s2 d.
+Proof.
+  intros s1 s2 d H. destruct d; cbn [dom_state_ok]; try reflexivity; unfold self_num;
+    rewrite (H a) by (left; reflexivity); reflexivity.
+Qed.
+
+Lemma in_domain_frame : forall g s1 s2 v, (forall a, In a (doc_selfs g) -> lookup s1 a = lookup s2 a) ->
+  in_domain g s1 v = in_domain g s2 v.
+Proof.
+  intros g s1 s2 v. unfold in_domain, doc_selfs. induction (g_clauses g) as [|c r IH]; intro H; [reflexivity|].
+  cbn. rewrite (in_dom_frame s1 s2 v (c_dom c)).
+  - rewrite IH; [reflexivity|]. intros a I. apply H. cbn. apply in_or_app. right. exact I.
+  - intros a I. apply H. cbn. apply in_or_app. left. exact I.
+Qed.
+
+Lemma state_ok_frame : forall g s1 s2, (forall a, In a (doc_selfs g) -> lookup s1 a = lookup s2 a) ->
+  state_ok g s1 = state_ok g s2.
+Proof.
+  intros g s1 s2. unfold state_ok, doc_selfs. induction (g_clauses g) as [|c r IH]; intro H; [reflexivity|].
+  cbn. rewrite (dom_state_ok_frame s1 s2 (c_dom c)).
+  - rewrite IH; [reflexivity|]. intros a I. apply H. cbn. apply in_or_app. right. exact I.
+  - intros a I. apply H. cbn. apply in_or_app. left. exact I.
+Qed.
+
+(* with the order check, every present key was validated in a state whose documented companions are the FINAL ones *)
+Lemma run_build_companions_final : forall items s d s',
+  forallb build_item_ok items = true -> build_order_ok items = true -> run_build items s d = Stored s' ->
+  forall k g v, In (k, g) items -> lookup d k = Some v ->
+  exists s1, (exists s2, setter g s1 v = Stored s2) /\ forall a, In a (doc_selfs g) -> lookup s1 a = lookup s' a.
+Proof.
+  induction items as [|[k0 g0] r IH]; intros s d s' B O R k g v I L; [destruct I|].
+  cbn in B, O, R. apply andb_prop in B. destruct B as [B1 Br]. apply andb_prop in O. destruct O as [O1 Or].
+  destruct I as [E|I].
+  - injection E as E1 E2. rewrite E1, E2 in *. clear E1 E2. rewrite L in R.
+    destruct (setter g s v) as [s2|e s2|s2] eqn:S; try discriminate.
+    exists s. split; [exists s2; exact S|].
+    intros a Ia. rewrite forallb_forall in O1. specialize (O1 a Ia). apply negb_true_iff in O1.
+    cbn in O1. apply orb_false_elim in O1. destruct O1 as [N1 N2].
+    unfold build_item_ok in B1. cbn in B1. apply String.eqb_eq in B1.
+    assert (Hne : g_attr g <> a).
+    { intro X. rewrite <- X, <- B1 in N1. rewrite String.eqb_refl in N1. discriminate. }
+    rewrite <- (setter_frame g s v s2 a S Hne).
+    symmetry. apply (run_build_frame r s2 d s' a R). rewrite (attrs_are_keys r Br). exact N2.
+  - destruct (lookup d k0) as [v0|].
+    + destruct (setter g0 s v0) as [s2|e s2|s2]; try discriminate. exact (IH s2 d s' Br Or R k g v I L).
+    + exact (IH s d s' Br Or R k g v I L).
+Qed.
+
+(* an ACCEPTED dictionary leaves an object in which every present key's value lies in its documented domain
+   evaluated against the FINAL companions -- in particular X_max >= X_min with both values of the dictionary *)
+Theorem run_build_final_state_documented : forall items s d s',
+  forallb build_item_ok items = true -> build_order_ok items = true -> run_build items s d = Stored s' ->
+  forall k g v, In (k, g) items -> lookup d k = Some v ->
+  guard_ok g = true -> g_pre g = None -> state_ok g s' = true -> in_domain g s' v = true.
+Proof.
+  intros items s d s' B O R k g v I L G P Hs'.
+  destruct (run_build_companions_final items s d s' B O R k g v I L) as [s1 [[s2 S] F]].
+  rewrite <- (in_domain_frame g s1 s' v F).
+  assert (Hs : state_ok g s1 = true) by (rewrite (state_ok_frame g s1 s' F); exact Hs').
+  assert (Hp : pre_holds g s1 = true) by (unfold pre_holds; rewrite P; reflexivity).
+  destruct (guard_accepts_iff_documented g s1 v G Hs Hp) as [[X _] _]. apply X. exists s2. exact S.
+Qed.
